@@ -1,9 +1,11 @@
 import Driver.PathEngine
+import Driver.Parse
 open Rio Rio.Driver
 
 def dispatch (line : String) : String :=
   match (line.trimAscii.toString.splitOn " ").filter (· ≠ "") with
   | "path" :: rest => pathEngine rest
+  | "hash" :: rest => hashEngine rest
   | _ => "bad-op"
 
 partial def loop (hin hout : IO.FS.Stream) : IO Unit := do
